@@ -299,10 +299,15 @@ def bounded_cases(tier, seed):
     # p > n: only with PCA (the whitener needs n > p)
     cases.append(dict(model="CPCCA", n=12, p=20, q=15, alpha=(0.5, 0.5), use_pca=True, n_pca=5, k=2, cplx=False))
     cases.append(dict(model="MCA", n=12, p=20, q=15, alpha=(1.0, 1.0), use_pca=True, n_pca="all", k=2, cplx=False))
+    # n <= p with all PCs kept: one numerically null PC reaches the whitener and must be cut off, not amplified
+    for model, a in (("CCA", (0.0, 0.0)), ("RDA", (0.0, 1.0)), ("CPCCA", (0.1, 0.1)), ("ComplexCPCCA", (0.0, 0.2))):
+        for (nn, pp, qq) in ((12, 20, 15), (10, 10, 14)):
+            cases.append(dict(model=model, n=nn, p=pp, q=qq, alpha=a, use_pca=True, n_pca="all", k=2,
+                              cplx=model.startswith("Complex"), keep=True))
     for i, c in enumerate(cases):
         c["seed"] = int(seed) * 1000 + i
     if tier == "quick":
-        cases = real.subsample(cases, 60, rng)
+        cases = [c for c in cases if c.get("keep")] + real.subsample([c for c in cases if not c.get("keep")], 56, rng)
     return cases
 
 
